@@ -50,6 +50,20 @@ impl<T> List<T> {
     }
 }
 
+impl<T> Drop for List<T> {
+    // Unlink iteratively: the derived drop glue recurses once per node and
+    // overflows the stack on long histories.
+    fn drop(&mut self) {
+        let mut link = self.head.take();
+        while let Some(node) = link {
+            link = match Arc::into_inner(node) {
+                Some(mut node) => node.next.take(),
+                None => None,
+            };
+        }
+    }
+}
+
 impl<T> Clone for List<T> {
     fn clone(&self) -> Self {
         Self {
